@@ -36,8 +36,10 @@ def run(chk, opts):
     t1 = time.time()
     cfgs.sort(key=lambda c: (c["op"], c["kind"], len(c["shape"]), c["shape"], c["rank"], str(c)))
     cases = []
+    draws = 3 if thorough else 1
     for k, c in enumerate(cfgs):
-        cases.append({"id": "C04/%s/%05d" % (c["op"], k), "cfg": c, "seed": chk.seed, "k": k, "draw": 0})
+        for d in range(draws):
+            cases.append({"id": "C04/%s/%05d/%d" % (c["op"], k, d), "cfg": c, "seed": chk.seed, "k": k, "draw": d})
     events = execute_cases(execute, cases, repo=chk.repo)
     t2 = time.time()
     by_id = {e.get("id"): e for e in events}
@@ -66,7 +68,7 @@ def run(chk, opts):
     chk.exhaustive = len(chk.distinct) == len(cfgs) and not chk.machinery
     chk.trusted.append("numpy einsum contraction used to measure the tensor represented by a floating-point output "
                        "(tensorly's own *_to_tensor are bound to the same contraction by C03)")
-    chk.assumptions += ["NumPy backend only", "one seeded integer input per configuration",
+    chk.assumptions += ["NumPy backend only", "one seeded integer input per configuration (three in the thorough tier)",
                         "float outputs compared with the exact integer expectation within 2e-5 (dense), 1e-6 (unit norms, orthonormality, signs)"]
 
 
